@@ -30,6 +30,8 @@ import build  # noqa: E402
 import recipes  # noqa: E402
 
 NCPU = 16
+import threading
+WORKER_SLOTS = threading.BoundedSemaphore(int(os.environ.get("VERIF_WORKERS", NCPU)))   # global cap on concurrent worker processes
 
 
 def log(*a):
@@ -61,13 +63,14 @@ def run_chunk(exe, backend, variant, scenario, base, first, count, opts, samples
                "--backend", backend, "--variant", variant, "--samples", str(samples)]
         for k, v in sorted(opts.items()):
             cmd += ["--opt", "%s=%s" % (k, v)]
-        try:
-            p = subprocess.run(cmd, stdout=subprocess.PIPE, stderr=subprocess.PIPE, timeout=timeout, env=dict(env or os.environ, **WORKER_ENV))
-            out, err, rc = p.stdout.decode(errors="replace"), p.stderr.decode(errors="replace"), p.returncode
-        except subprocess.TimeoutExpired as e:
-            out = (e.stdout or b"").decode(errors="replace")
-            err = (e.stderr or b"").decode(errors="replace") + "\nTIMEOUT"
-            rc = -999
+        with WORKER_SLOTS:
+            try:
+                p = subprocess.run(cmd, stdout=subprocess.PIPE, stderr=subprocess.PIPE, timeout=timeout, env=dict(env or os.environ, **WORKER_ENV))
+                out, err, rc = p.stdout.decode(errors="replace"), p.stderr.decode(errors="replace"), p.returncode
+            except subprocess.TimeoutExpired as e:
+                out = (e.stdout or b"").decode(errors="replace")
+                err = (e.stderr or b"").decode(errors="replace") + "\nTIMEOUT"
+                rc = -999
         done = 0
         cur = None
         finished = False
